@@ -11,5 +11,6 @@ INVARIANT LawMutants
 INVARIANT LawTrailing
 INVARIANT LawPtr
 INVARIANT LawOpt
+INVARIANT LawBitmap
 INVARIANT LawImplEq
 CHECK_DEADLOCK FALSE
